@@ -72,6 +72,94 @@ def run(rep, prog, tier):
     r1(rep, prog)
     r2(rep, prog)
     r3(rep, prog)
+    r4(rep, prog)
+
+
+# AllScorer::new call sites: function -> list of evidence every site in it needs.  An evidence is
+# (kind, regex-or-value): ('call', regex) a guard decided by that call, ('param', i), ('variant', name).
+MATCH_ALL_SITES = {
+    "<tantivy::query::all_query::AllWeight as tantivy::query::weight::Weight>::scorer":
+        (1, [], "AllQuery matches every document by definition"),
+    "tantivy::query::boolean_query::boolean_weight::effective_must_scorer":
+        (1, [("param", 2)], "restores match-all only when AllScorer clauses were removed from the MUST list (removed_all_scorer_count > 0)"),
+    "tantivy::query::boolean_query::boolean_weight::effective_should_scorer_for_union":
+        (2, [("param", 2)], "same, for the SHOULD union"),
+    "<tantivy::query::exist_query::ExistsWeight as tantivy::query::weight::Weight>::scorer":
+        (1, [("call", r"Iterator>::any$")], "some column of the field has a Full index: every document has a value"),
+    "<tantivy::query::range_query::range_query_fastfield::FastFieldRangeWeight as tantivy::query::weight::Weight>::scorer":
+        (1, [("call", r"BoundsRange::<T>::is_unbounded$")], "a range without bounds matches every document"),
+    "tantivy::query::range_query::range_query_fastfield::search_on_u64_ff":
+        (2, [("variant", "Full"), ("call", r"Column::<T>::min_value$"), ("call", r"Column::<T>::max_value$")],
+         "every value of the column is inside the range AND the column has exactly one value per document (Cardinality::Full): an optional or multivalued column can hold documents without a value"),
+    "tantivy::query::term_query::term_weight::TermWeight::specialized_scorer":
+        (1, [("call", r"SegmentReader::max_doc$"), ("call", r"InvertedIndexReader::get_term_info$")], "the term's doc_freq equals max_doc: the posting list holds every document (only when scores are not needed)"),
+}
+
+
+def place_proj_has_field(p):
+    return False
+
+
+def r4(rep, prog):
+    import re
+    from ..rules import dominating_guards, guard_evidence, place_ty
+    R = "C03-R4"
+    rep.rule(R, "match-all shortcuts are justified: every construction of an AllScorer (a scorer that matches the whole doc-id space without looking at any data) is a tabled site whose guards — the switches that control whether the site is reached — are decided by the evidence recorded for it (the column's cardinality being Full and min/max inside the range for the fast-field range path; is_unbounded(); doc_freq == max_doc; removed AllScorer clauses; ...). A new site, or a site whose guard no longer rests on that evidence, is reported")
+    names = prog.names(r"all_query::AllScorer::new$")
+    seen = {}
+    for b, bi, t in prog.who_calls(set(names)):
+        if "::tests::" in b.id:
+            continue
+        seen.setdefault(b.id, []).append((b, bi))
+    for fid, sites_ in sorted(seen.items()):
+        if fid not in MATCH_ALL_SITES:
+            rep.fail(R, "%s: untabled match-all shortcut" % short(fid), "`%s` builds an AllScorer (matches every document of the segment without reading data) and is not in the reviewed table: "
+                     "the condition under which all documents match must be reviewed" % fid, site=site(sites_[0][0], sites_[0][1]))
+            continue
+        cnt, need, why = MATCH_ALL_SITES[fid]
+        rep.check(len(sites_) <= cnt, R, "%s: number of match-all sites" % short(fid), "%d site(s)" % len(sites_),
+                  "%d AllScorer sites in `%s`, the table has %d" % (len(sites_), fid, cnt), site=site(sites_[0][0], sites_[0][1]))
+        for k, (b, bi) in enumerate(sites_):
+            ev = set()
+            guards = list(dominating_guards(b, bi))
+            # a materialised boolean (`matches!`, `a && b`): the guards of the blocks that assign the taken value
+            for sb, arms, l in list(guards):
+                ds_ = b.defs().get(l, [])
+                if len(ds_) >= 2 and all(d[0] == "stmt" and d[3].get("r") == "use" and "v" in (d[3].get("o") or [{}])[0] for d in ds_):
+                    want_true = arms != ("0",)
+                    for d in ds_:
+                        val = str(d[3]["o"][0].get("v")) not in ("0", "false")
+                        if val == want_true:
+                            guards.extend(dominating_guards(b, d[1]))
+            for sb, arms, l in guards:
+                ev |= guard_evidence(prog, b, l)
+                # a `match` / `matches!` on an enum: the variants of the arms through which the site is reached
+                ds = b.defs().get(l, [])
+                if len(ds) == 1 and ds[0][0] == "stmt" and ds[0][3].get("r") == "discr":
+                    pty = place_ty(prog, b, ds[0][3]["p"])
+                    while pty is not None and pty.get("k") == "ref":
+                        pty = dict(prog.crate_types[pty.get("_crate", b.crate)][pty["a"][0]], _crate=pty.get("_crate", b.crate)) if pty.get("a") else None
+                    adt = prog.adts.get(pty.get("def")) if pty is not None and pty.get("k") == "adt" else None
+                    if adt is not None and adt["kind"] == "enum":
+                        by_discr = {str(v.get("discr", i)): v["name"] for i, v in enumerate(adt["variants"])}
+                        for a in arms:
+                            if a in by_discr:
+                                ev.add(("variant", adt["path"], by_discr[a]))
+            missing = []
+            for kind, val in need:
+                if kind == "call":
+                    okk = any(e[0] == "call" and re.search(val, e[1]) for e in ev)
+                elif kind == "param":
+                    okk = ("param", val) in ev
+                else:
+                    okk = any(e[0] == "variant" and e[2] == val for e in ev)
+                if not okk:
+                    missing.append("%s %s" % (kind, val))
+            rep.check(not missing, R, "%s: match-all site #%d is guarded by its recorded evidence" % (short(fid), k + 1), why,
+                      "the AllScorer shortcut in `%s` is no longer controlled by %s (%s): documents that do not match can be returned" % (fid, missing, why), site=site(b, bi))
+    for fid in MATCH_ALL_SITES:
+        if fid not in seen:
+            rep.fail(R, "stale table entry %s" % short(fid), "the tabled match-all site no longer exists: the table must be re-confirmed")
 
 
 def classify_docspace(body, o):
